@@ -1,5 +1,6 @@
 import ServiceModel.Properties.C03
 import ServiceModel.Proofs.NoSlash
+import ServiceModel.Proofs.SlashOnce
 /-!
 # C04 — Providers are slashed exactly when they fail a request
 -/
@@ -110,5 +111,26 @@ theorem slash_amount {s s1 : State} {r : ReqId} {svc : SvcName} {pv : Addr} {e :
 theorem no_slash_outside_response_and_expiry (s : State) (op : Op) (hne : op.isEndblock = false)
     (hnr : ∀ r pv c o, op ≠ .respond r pv c o) : ∀ e ∈ (step s op).2.2, e.isSlash = false :=
   step_noSlash s op hne hnr
+
+variable {cfg : Config} {p : Params} {h0 t0 : Int}
+
+/-- Every slash names a failed request: the request in a slash effect was pending before the step and is not pending
+    after it (it was answered with a malformed output, or it expired in this end of block). -/
+theorem slash_is_for_a_request_just_settled (hc : CfgOK cfg p) {s : State} (hr : Reachable cfg p h0 t0 s) (op : Op)
+    (r : ReqId) (pv : Addr) (n : Nat) (he : Effect.slash r pv n ∈ (step s op).2.2) :
+    r ∈ s.activeI ∧ r ∉ (step s op).1.activeI :=
+  step_slash_pending (reachable_inv hc hr) op _ he r pv n rfl
+
+/-- Once: over every history, a request for which a provider was slashed is never the reason of a second slash —
+    it is never pending again (C02), and a slash needs its request pending. -/
+theorem request_slashed_at_most_once (hc : CfgOK cfg p) {s s' : State} (hr : Reachable cfg p h0 t0 s) (op : Op)
+    (hw : WF s op) (r : ReqId) (pv : Addr) (n : Nat) (he : Effect.slash r pv n ∈ (step s op).2.2)
+    (hl : Leads (step s op).1 s') (op' : Op) (pv' : Addr) (n' : Nat) :
+    Effect.slash r pv' n' ∉ (step s' op').2.2 := by
+  intro he'
+  obtain ⟨hact, hgone⟩ := slash_is_for_a_request_just_settled hc hr op r pv n he
+  have hsp := spent_leads hc (Reachable.step op hr hw) hl r (spent_of_deactivated (reachable_inv hc hr) op hw r hact hgone)
+  have hr' := reachable_of_leads (Reachable.step op hr hw) hl
+  exact hsp.1 (slash_is_for_a_request_just_settled hc hr' op' r pv' n' he').1
 
 end SM.C04
